@@ -53,6 +53,8 @@ TEMPLATES = {
     "none": {"angles": [30, -90, 150], "cons": []},
     # EVSEs with a real maximum (32 A) under generously rated constraints: no schedule within the EVSE limits can load
     # them fully - feasibility is still decided by the currents asked about, whatever the EVSEs could deliver
+    # a de-energised branch: a constraint whose limit is exactly 0 A (only the tolerance is admissible on it)
+    "zero": {"angles": [30, -90, 150], "cons": [("off", {"PS-A": 1, "PS-B": 1}, 0.0), ("lc", {"PS-C": 1, "PS-B": -1}, 20.0)]},
     "rated": {"angles": [30, -90, 150], "max_rate": 32, "cons": [("gen", {"PS-A": 1, "PS-B": 1, "PS-C": 1}, 100.0), ("d", {"PS-A": 1, "PS-C": -1}, 70.0)]},
 }
 # quick uses the first two registration orders, thorough all six
@@ -152,6 +154,8 @@ def space(tier, seed):
         for oi in range(len(ORDERS) if thorough else 2):
             for ti in range(len(TOLS)):
                 for mode in (1, 2, 3):  # periods per schedule
+                    if tname == "zero" and (0.0 in TOLS[ti] or mode == 3):
+                        continue  # with limit 0 AND tolerance 0 there is no band to probe
                     if not thorough and ((0.0 in TOLS[ti] and mode == 3) or (tname == "duprows" and (ti in (1, 2, 5) or (oi == 1 and mode > 1)))):
                         continue  # keeps the quick tier short; these corners add no new code path
                     it = {"tpl": tname, "order": oi, "tol": ti, "T": mode, "tier": tier}
